@@ -327,7 +327,8 @@ class C13(Prop):
     id = 'C13'
     registered = True
     technique = ('Hypothesis-generated test histories with unique output tokens per test/phase/stream; attribution '
-                 'oracle over the captured runner output; stream-identity probes between tests and after the run')
+                 'oracle over the captured runner output; stream-identity probes between tests and after the run; in-process, '
+                 'post-mortem and with layers in subprocesses')
     level_text = ('Histories of tests of every outcome kind, each writing unique tokens to stdout/stderr (text, .buffer '
                   'bytes incl. undecodable ones, with/without newline) in setUp/body/tearDown, are run with and without '
                   '--buffer; tokens of passing/skipped/expected-failure tests must never occur in the output, tokens of '
